@@ -93,7 +93,8 @@ def fixed_instances():
            noise=[[[1, -2], [2], [0]], [[0, 0], [0], [0]], [[2, 1], [-1], [0]]])
   c = dict(data=[[[2]], [[-1], [3]], [[0], [4], [4]]], stream=[[[1]], [[2, 1]], [[1, 2], [3, 3]]], init=[R(1)],
            copt=island.opt_spec('sgd', 1), sopt=island.opt_spec('mom', 0.5, 0.25), mu=R(0), rounds=2, cohorts=[[3, 1, 2], [1, 2, 3]])
-  return [a, b, c]
+  d = dict(c, copt=island.opt_spec('nes', 0.5, 0.5), sopt=island.opt_spec('nes', 1, 0.5))      # Nesterov momentum on both sides
+  return [a, b, c, d]
 
 
 def descendants(jax, key, depth):
